@@ -1,22 +1,21 @@
-// Package c13 replays Compress histories (config switches, writes with
-// redirections, reads) through a real Redis processor with the real snappy
-// compression, against simulated nodes that redirect on demand.
+// Package c13 replays Compress histories (config switches, writes with one
+// or several value positions, redirections and concurrent traffic, reads at
+// every reply nesting depth) through a real Redis processor with the real
+// snappy compression, against simulated nodes that redirect on demand
+// (replay.go); forces every CompressPipe behaviour on the real writer of a
+// backend connection (pipeline.go); and runs concurrent writers (concurrent.go).
 package c13
 
 import (
 	"bytes"
-	"encoding/json"
 	"flag"
 	"fmt"
 	"math/rand"
 	"time"
 
-	"github.com/golang/snappy"
-	pbredis "github.com/samaritan-proxy/samaritan/pb/config/protocol/redis"
 	predis "github.com/samaritan-proxy/samaritan/proc/redis"
 
 	"verifharness/internal/cli"
-	"verifharness/internal/resp"
 	"verifharness/internal/simredis"
 	"verifharness/internal/sut"
 )
@@ -24,315 +23,8 @@ import (
 func init() {
 	cli.Register("c13-replay", replay)
 	cli.Register("c13-values", values)
-}
-
-type step struct {
-	A   string `json:"a"`
-	C   string `json:"c"`
-	K   string `json:"k"`
-	Cls string `json:"cls"`
-	R   int    `json:"r"`
-}
-
-type bad struct {
-	Step int    `json:"step"`
-	What string `json:"what"`
-	Sig  string `json:"sig"`
-}
-
-type result struct {
-	ID     int    `json:"id"`
-	Writes int    `json:"writes"`
-	Reads  int    `json:"reads"`
-	Bad    []bad  `json:"bad"`
-	Err    string `json:"err,omitempty"`
-}
-
-// value of a class for the given threshold; verified against the real value compression
-func valueOf(cls string, thr int, rnd *rand.Rand) []byte {
-	switch cls {
-	case "small":
-		n := rnd.Intn(thr)
-		return bytes.Repeat([]byte("s"), n)
-	case "comp1":
-		return bytes.Repeat([]byte("a"), thr+rnd.Intn(8))
-	case "comp2":
-		// the once-compressed form must still be >= thr and shrink again
-		n := 1024
-		for {
-			v := bytes.Repeat([]byte("0"), n)
-			once := predis.VerifCompressValue(v)
-			if len(once) >= thr && len(predis.VerifCompressValue(once)) < len(once) {
-				return v
-			}
-			n *= 2
-			if n > 1<<26 {
-				return nil
-			}
-		}
-	default: // incomp
-		v := make([]byte, thr+16)
-		rnd.Read(v)
-		if bytes.HasPrefix(v, predis.VerifCompressHeader()) {
-			v[0] ^= 0xff
-		}
-		return v
-	}
-}
-
-// decodeStored checks the documented stored form: original, or header + one snappy stream expanding to the original and shorter.
-func storedFormOK(stored, orig []byte) (bool, string) {
-	if bytes.Equal(stored, orig) {
-		return true, ""
-	}
-	hdr := predis.VerifCompressHeader()
-	if !bytes.HasPrefix(stored, hdr) {
-		return false, "stored bytes are neither the original nor carry the compression header"
-	}
-	if len(stored) >= len(orig) {
-		return false, fmt.Sprintf("stored form (%d bytes) is not shorter than the original (%d bytes)", len(stored), len(orig))
-	}
-	dec, err := decodeSnappyStream(stored[len(hdr):])
-	if err != nil {
-		return false, "stored stream does not decompress: " + err.Error()
-	}
-	if !bytes.Equal(dec, orig) {
-		return false, fmt.Sprintf("stored stream expands to %d bytes which are not the original (%d bytes): compressed more than once?", len(dec), len(orig))
-	}
-	return true, ""
-}
-
-// snappyStream is the framed snappy encoding of v computed by the harness' own use of the library.
-func snappyStream(v []byte) []byte {
-	var b bytes.Buffer
-	w := snappy.NewBufferedWriter(&b)
-	w.Write(v)
-	w.Close()
-	return b.Bytes()
-}
-
-func decodeSnappyStream(b []byte) ([]byte, error) {
-	r := snappy.NewReader(bytes.NewReader(b))
-	var out bytes.Buffer
-	_, err := out.ReadFrom(r)
-	return out.Bytes(), err
-}
-
-type writeCmd struct {
-	name string
-	args func(key string, val []byte) [][]byte
-	hash bool
-}
-
-var writeCmds = []writeCmd{
-	{"SET", func(k string, v []byte) [][]byte { return [][]byte{[]byte("SET"), []byte(k), v} }, false},
-	{"setnx", func(k string, v []byte) [][]byte { return [][]byte{[]byte("setnx"), []byte(k), v} }, false},
-	{"GETSET", func(k string, v []byte) [][]byte { return [][]byte{[]byte("GETSET"), []byte(k), v} }, false},
-	{"setex", func(k string, v []byte) [][]byte { return [][]byte{[]byte("setex"), []byte(k), []byte("1000"), v} }, false},
-	{"PSETEX", func(k string, v []byte) [][]byte { return [][]byte{[]byte("PSETEX"), []byte(k), []byte("100000"), v} }, false},
-	{"mset", func(k string, v []byte) [][]byte { return [][]byte{[]byte("mset"), []byte(k), v} }, false},
-	{"HSET", func(k string, v []byte) [][]byte { return [][]byte{[]byte("HSET"), []byte(k), []byte("f"), v} }, true},
-	{"hmset", func(k string, v []byte) [][]byte { return [][]byte{[]byte("hmset"), []byte(k), []byte("g"), []byte("x"), []byte("f"), v} }, true},
-	{"HSETNX", func(k string, v []byte) [][]byte { return [][]byte{[]byte("HSETNX"), []byte(k), []byte("f"), v} }, true},
-}
-
-func compression(c string, thr int) *pbredis.Compression {
-	switch c {
-	case "enabled":
-		return &pbredis.Compression{Enable: true, Threshold: uint32(thr), Algorithm: pbredis.Compression_SNAPPY}
-	case "disabled":
-		return &pbredis.Compression{Enable: false, Threshold: uint32(thr), Algorithm: pbredis.Compression_SNAPPY}
-	}
-	return nil
-}
-
-func replayOne(id int, steps []step, rnd *rand.Rand, thr int) (res result) {
-	res = result{ID: id}
-	cl, err := simredis.NewCluster(3, 0)
-	if err != nil {
-		res.Err = err.Error()
-		return
-	}
-	defer cl.Close()
-	if len(steps) == 0 || steps[0].A != "config" {
-		res.Err = "history does not start with a config"
-		return
-	}
-	px, err := sut.StartRedis(sut.RedisOpts{Compression: compression(steps[0].C, thr)}, cl.Addrs())
-	if err != nil {
-		res.Err = "start: " + err.Error()
-		return
-	}
-	defer sut.StopWithin(px.P, 5*time.Second)
-	if !sut.WaitRefresh(px.Name, 3*time.Second) {
-		res.Err = "slot table not loaded"
-		return
-	}
-	c, err := sut.Dial(px.Addr)
-	if err != nil {
-		res.Err = err.Error()
-		return
-	}
-	defer c.Close()
-	type kv struct {
-		orig []byte
-		hash bool
-		key  string
-	}
-	written := map[string]*kv{}
-	hops := func(key string, r int) {
-		if r == 0 {
-			return
-		}
-		time.Sleep(15 * time.Millisecond) // let the proxy's table catch up with earlier moves
-		cur := cl.Owner(simredis.Slot([]byte(key)))
-		var hs []int
-		for i := 0; i < r; i++ {
-			cur = (cur + 1) % 3
-			hs = append(hs, cur)
-		}
-		cl.Bounce(key, hs)
-	}
-	addBad := func(i int, sig, what string) { res.Bad = append(res.Bad, bad{Step: i, What: what, Sig: sig}) }
-	curCfg := steps[0].C
-	for i, st := range steps[1:] {
-		switch st.A {
-		case "config":
-			curCfg = st.C
-			cfg := sut.RedisConfig(sut.RedisOpts{Port: portOf(px.Addr), Compression: compression(st.C, thr)})
-			if err := px.P.OnSvcConfigUpdate(cfg); err != nil {
-				res.Err = "config update: " + err.Error()
-				return
-			}
-		case "write":
-			res.Writes++
-			wc := writeCmds[rnd.Intn(len(writeCmds))]
-			key := fmt.Sprintf("%s:%d:%v", st.K, id, wc.hash)
-			val := valueOf(st.Cls, thr, rnd)
-			if val == nil {
-				res.Err = "no value of class " + st.Cls
-				return
-			}
-			orig := append([]byte{}, val...)
-			if wc.name == "setnx" || wc.name == "HSETNX" {
-				// make sure the conditional write takes effect
-				c.DoB(3*time.Second, []byte("del"), []byte(key))
-			}
-			hops(key, st.R)
-			v, err := c.DoB(5*time.Second, wc.args(key, val)...)
-			if err != nil || v.IsErr() {
-				addBad(i, "write-failed/"+wc.name, fmt.Sprintf("%s %s: %v %v", wc.name, key, v, err))
-				continue
-			}
-			written[st.K+fmt.Sprint(wc.hash)] = &kv{orig: orig, hash: wc.hash, key: key}
-			// what reached the backend
-			for _, n := range cl.Masters() {
-				if e, ok := n.Get(key); ok {
-					stored := e.Str
-					if wc.hash {
-						stored = e.Hash["f"]
-					}
-					if ok, why := storedFormOK(stored, orig); !ok {
-						addBad(i, fmt.Sprintf("stored-form/%s/redirects=%d", st.Cls, st.R), fmt.Sprintf("%s of a %d byte %s value with %d redirection(s): %s", wc.name, len(orig), st.Cls, st.R, why))
-					}
-				}
-			}
-		case "read":
-			for _, h := range []bool{false, true} {
-				w := written[st.K+fmt.Sprint(h)]
-				if w == nil {
-					continue
-				}
-				res.Reads++
-				hops(w.key, st.R)
-				var v resp.Value
-				var err error
-				var got []byte
-				variant := rnd.Intn(3)
-				switch {
-				case !h && variant == 0:
-					v, err = c.Do(5*time.Second, "GET", w.key)
-					got = v.Str
-				case !h && variant == 1:
-					v, err = c.Do(5*time.Second, "mget", w.key, w.key+"-absent")
-					if len(v.Arr) == 2 {
-						got = v.Arr[0].Str
-					}
-				case !h:
-					v, err = c.DoB(5*time.Second, []byte("getset"), []byte(w.key), w.orig)
-					got = v.Str
-				case variant == 0:
-					v, err = c.Do(5*time.Second, "HGET", w.key, "f")
-					got = v.Str
-				case variant == 1:
-					v, err = c.Do(5*time.Second, "hmget", w.key, "f")
-					if len(v.Arr) == 1 {
-						got = v.Arr[0].Str
-					}
-				default:
-					v, err = c.Do(5*time.Second, "HGETALL", w.key)
-					for j := 0; j+1 < len(v.Arr); j += 2 {
-						if string(v.Arr[j].Str) == "f" {
-							got = v.Arr[j+1].Str
-						}
-					}
-				}
-				if err != nil || v.IsErr() {
-					addBad(i, "read-failed", fmt.Sprintf("read of %s: %v %v", w.key, v, err))
-					continue
-				}
-				if !bytes.Equal(got, w.orig) && curCfg == "absent" {
-					// Compress.tla, ReadBack: without a compression section the filter is out of the chain
-					// ("enable: false" is the documented switch under which "uncompress will always work");
-					// a value stored compressed earlier comes back as stored - outside the property.
-					continue
-				}
-				if !bytes.Equal(got, w.orig) {
-					addBad(i, fmt.Sprintf("read-back/redirects=%d", st.R), fmt.Sprintf("read %d bytes (%q...), wrote %d bytes (%q...)", len(got), clip(got), len(w.orig), clip(w.orig)))
-				}
-			}
-		}
-	}
-	return
-}
-
-func clip(b []byte) []byte {
-	if len(b) > 24 {
-		return b[:24]
-	}
-	return b
-}
-
-func portOf(addr string) int {
-	var p int
-	fmt.Sscanf(addr[len("127.0.0.1:"):], "%d", &p)
-	return p
-}
-
-func replay(args []string) error {
-	fs := flag.NewFlagSet("c13-replay", flag.ContinueOnError)
-	in := fs.String("in", "", "histories (ndjson)")
-	out := fs.String("out", "", "results (ndjson)")
-	if err := fs.Parse(args); err != nil {
-		return err
-	}
-	sut.FastRefresh()
-	w, err := cli.NewNDJSONWriter(*out)
-	if err != nil {
-		return err
-	}
-	defer w.Close()
-	rnd := rand.New(rand.NewSource(cli.Seed()))
-	thresholds := []int{32, 1, 512, 100}
-	id := 0
-	return cli.ReadNDJSON(*in, func(line []byte) error {
-		var steps []step
-		if err := json.Unmarshal(line, &steps); err != nil {
-			return err
-		}
-		id++
-		return w.Write(replayOne(id, steps, rnd, thresholds[id%len(thresholds)]))
-	})
+	cli.Register("c13-pipeline", pipeline)
+	cli.Register("c13-concurrent", concurrent)
 }
 
 // ---- white box: value compression round trip over lengths around the threshold and entropies; banned commands
